@@ -32,13 +32,13 @@ type Profile struct {
 	OutFilePct  int  // % of cases using -out instead of stdout
 	ExecSafe    bool // harness X: shapes the reflective driver can build values for
 	InPlaceOnly bool
-	FmtDefault  bool // only the default formatter
-	MultiArgPct int  // % of cases with >1 interface argument
-	UnnamedPct  int  // % of signatures with unnamed parameters
-	GopathPct   int  // % of worlds in GOPATH+vendor layout
+	FmtDefault  bool   // only the default formatter
+	MultiArgPct int    // % of cases with >1 interface argument
+	UnnamedPct  int    // % of signatures with unnamed parameters
+	GopathPct   int    // % of worlds in GOPATH+vendor layout
 	ModPath     string // module-relative import path prefix of the world (default example.com/w, own go.mod)
-	Evolve      bool // also render a second version of the source (first requested literal interface gains a method)
-	MultiRefPct int  // % bias towards dependency interfaces whose one method type mentions several same-named packages
+	Evolve      bool   // also render a second version of the source (first requested literal interface gains a method)
+	MultiRefPct int    // % bias towards dependency interfaces whose one method type mentions several same-named packages
 }
 
 func DefaultProfile() Profile {
@@ -99,11 +99,13 @@ type Iface struct {
 }
 
 type TParamDecl struct {
-	Name   string
-	Con    *Ty    // constraint as a type (named or inline interface) — nil means use ConSrc
-	ConSrc string // literal constraint text when not expressible as Ty ("any", "comparable", "~int | ~string")
-	Cmp    bool
-	Kind   string
+	Terms      []*Ty // inline union of named types: A | B, printed as interface{ A | B } when TermsIface
+	TermsIface bool
+	Name       string
+	Con        *Ty    // constraint as a type (named or inline interface) — nil means use ConSrc
+	ConSrc     string // literal constraint text when not expressible as Ty ("any", "comparable", "~int | ~string")
+	Cmp        bool
+	Kind       string
 }
 
 func (g *G) label(l string) { g.labels[l] = true }
@@ -181,7 +183,7 @@ func pkgNameForDir(dir string) string {
 	return r.Replace(base)
 }
 
-var typeNamePool = []string{"T", "Type", "Item", "Config", "Client", "ID", "URL", "Reader", "Context", "Node", "Thing", "Foo", "Bar", "Request",
+var typeNamePool = []string{"Ünit", "T", "Type", "Item", "Config", "Client", "ID", "URL", "Reader", "Context", "Node", "Thing", "Foo", "Bar", "Request",
 	"Options", "Key", "Value", "Event", "User", "MyType", "Data"}
 
 // type names whose de-capitalised form is a word the generated code needs (receiver, record variable, keywords,
@@ -194,7 +196,7 @@ var reservedStemTypesOpen = []string{"Error", "Any", "Nil", "Append", "Panic", "
 
 var ifaceNamePool = []string{"Store", "Service", "Repo", "Doer", "Handler", "Backend", "Api", "Thing", "Reader", "Manager", "Cache", "Queue",
 	"Worker", "Finder", "Sink"}
-var methodNamePool = []string{"Get", "Put", "Do", "Run", "Close", "Find", "Create", "Delete", "Update", "List", "Send", "Recv", "Handle",
+var methodNamePool = []string{"Ärger", "Get", "Put", "Do", "Run", "Close", "Find", "Create", "Delete", "Update", "List", "Send", "Recv", "Handle",
 	"Open", "Process", "Apply", "Check", "Load", "Save", "Visit", "Exec", "One", "Two", "Three"}
 var tparamNames = []string{"T", "K", "V", "E", "S", "U", "TT", "Elem", "TKey", "T1", "T2"}
 var tparamNamesOdd = []string{"t", "Id", "id", "elem", "k", "tKey", "Url"}
@@ -202,7 +204,7 @@ var tparamNamesOdd = []string{"t", "Id", "id", "elem", "k", "tKey", "Url"}
 var idiomNames = []string{"ctx", "id", "name", "req", "w", "r", "err", "n", "s", "b", "ok", "key", "val", "x", "y", "data", "opts", "value"}
 var genOutNames = []string{"s", "s1", "s2", "n", "n1", "n2", "fn", "val", "ifaceVal", "v", "err", "f", "b", "b1", "strings", "ints", "errs", "stringToInt", "intCh"}
 var suffixNames = []string{"sMoqParam", "sOut", "nOut", "errOut", "ctxMoqParam", "s1Out", "bOut", "vOut", "ioMoqParam", "syncMoqParam"}
-var oddNames = []string{"x_1", "_x", "a1", "X_", "X", "Ctx", "aB", "a_b", "ID", "Id", "iD", "URL", "uRL", "Url", "http", "HTTP", "Http", "json", "xml", "uuid", "uid", "ip", "vm", "utf8", "Utf8"}
+var oddNames = []string{"über", "Äh", "ñu", "日本", "x_1", "_x", "a1", "X_", "X", "Ctx", "aB", "a_b", "ID", "Id", "iD", "URL", "uRL", "Url", "http", "HTTP", "Http", "json", "xml", "uuid", "uid", "ip", "vm", "utf8", "Utf8"}
 var reservedNames = []string{"mock", "callInfo", "string", "nil", "append", "panic", "int", "error", "any", "bool", "len", "true", "calls"}
 
 // New builds a generator bound to a rapid test.
@@ -226,7 +228,7 @@ func (g *G) freshTop(pool []string, exported bool) string {
 			n = fmt.Sprintf("%s%d", n, g.Int(2, 99))
 		}
 		if !exported {
-			n = strings.ToLower(n[:1]) + n[1:]
+			n = LowerFirst(n)
 			// F-L: a generated parameter name (t, item, ...) may capture an unexported local type of that name
 			if g.excluded("F-L") {
 				n += "Impl"
@@ -655,7 +657,7 @@ func (g *G) ty(c tyCtx) *Ty {
 		for i := 0; i < n; i++ {
 			ft := g.ty(tyCtx{needCmp: c.needCmp, depth: c.depth + 1})
 			f := Field{Name: fmt.Sprintf("F%d", i), T: ft}
-			if ft.K == KNamed && len(ft.Args) == 0 && !seen[ft.Name] && g.Chance(30) {
+			if ft.K == KNamed && len(ft.Args) == 0 && !seen[ft.Name] && ft.Pkg != nil && ft.Pkg.Path != "unsafe" && g.Chance(30) {
 				f.Embedded = true
 				f.Name = ft.Name
 			}
@@ -755,7 +757,7 @@ func foldKey(n string) string {
 	if n == "" {
 		return ""
 	}
-	return strings.ToUpper(n[:1]) + n[1:]
+	return UpperFirst(n)
 }
 
 func (g *G) okParamName(n string, used map[string]bool, fold map[string]bool) bool {
@@ -1016,6 +1018,24 @@ func (g *G) genTParams(skipEnsure bool) ([]TParamDecl, bool) {
 			tp.ConSrc, tp.Kind, tp.Cmp = "~int | ~string", "union-inline", true
 		case k == 6:
 			tp.ConSrc, tp.Kind, tp.Cmp = "int | string | float64", "union-inline", true
+			// named (non-interface) types as union terms: their packages must be imported and qualified
+			var named []namedCand
+			for _, pk := range append(append([]*Pkg{}, g.deps...), g.src) {
+				for _, d := range pk.Decls {
+					if d.IntLike && !d.Constr && !d.Iface && d.NTParams == 0 && d.Exported {
+						named = append(named, namedCand{pk, d})
+					}
+				}
+			}
+			if len(named) > 0 && g.Chance(60) && !g.excluded("F-I") && hardKind() {
+				a := named[g.Int(0, len(named)-1)]
+				tp.Terms = []*Ty{{K: KNamed, Name: a.d.Name, Pkg: a.p, Cmp: true}}
+				if b := named[g.Int(0, len(named)-1)]; b != a {
+					tp.Terms = append(tp.Terms, &Ty{K: KNamed, Name: b.d.Name, Pkg: b.p, Cmp: true})
+				}
+				tp.TermsIface = g.Chance(50)
+				tp.ConSrc, tp.Kind = "", "union-inline-named"
+			}
 		case k == 7 || k == 8:
 			// named method interface as constraint
 			cs := g.ifaceCands(false)
@@ -1130,7 +1150,16 @@ func (g *G) genIface(cfgSkipEnsure bool) *Iface {
 			for i := 0; i < nc.d.NTParams; i++ {
 				t.Args = append(t.Args, g.ty(tyCtx{depth: 1}))
 			}
-			if g.Chance(50) {
+			if g.Chance(25) && !g.excluded("F-M") && !g.P.ExecSafe {
+				// generic alias: type X[T any] = G[T]
+				tpn := g.Pick(tparamNames)
+				it.TParams = []TParamDecl{{Name: tpn, ConSrc: "any", Kind: "any"}}
+				for i := range t.Args {
+					t.Args[i] = &Ty{K: KTParam, Name: tpn}
+				}
+				it.AliasOf = t
+				g.label("iface:generic-alias")
+			} else if g.Chance(50) {
 				it.AliasOf = t
 				g.label("iface:alias-instantiated")
 			} else {
@@ -1197,7 +1226,7 @@ func (g *G) genIface(cfgSkipEnsure bool) *Iface {
 				name = g.freshMethod()
 			}
 			if g.inPlace && !g.P.ExecSafe && g.Chance(4) {
-				name = strings.ToLower(name[:1]) + name[1:]
+				name = LowerFirst(name)
 			}
 			if !it.AllMeths[name] {
 				break
@@ -1220,6 +1249,9 @@ func (it *Iface) walk(f func(*Ty)) {
 	}
 	for _, tp := range it.TParams {
 		tp.Con.Walk(f)
+		for _, t := range tp.Terms {
+			t.Walk(f)
+		}
 	}
 	for _, m := range it.Methods {
 		m.Sig.Walk(f)
@@ -1236,9 +1268,20 @@ func (it *Iface) render(q Qual) string {
 				b.WriteString(", ")
 			}
 			b.WriteString(tp.Name + " ")
-			if tp.Con != nil {
+			switch {
+			case len(tp.Terms) > 0:
+				var ts []string
+				for _, t := range tp.Terms {
+					ts = append(ts, t.Render(q))
+				}
+				if tp.TermsIface {
+					b.WriteString("interface{ " + strings.Join(ts, " | ") + " }")
+				} else {
+					b.WriteString(strings.Join(ts, " | "))
+				}
+			case tp.Con != nil:
 				b.WriteString(tp.Con.Render(q))
-			} else {
+			default:
 				b.WriteString(tp.ConSrc)
 			}
 		}
@@ -1315,7 +1358,7 @@ func (g *G) assignFiles() {
 					alias = o.Name
 					g.label("alias:other-pkg-name")
 				case 5:
-					alias = strings.ToUpper(p.Name[:1]) + p.Name[1:]
+					alias = UpperFirst(p.Name)
 				}
 			}
 			q := alias
